@@ -23,7 +23,10 @@ import (
 // keep-session, with statement time-outs, multi-result answers, the binary protocol, a client that
 // stops reading in the middle of an answer, and sharded statements entering above the planner.
 //
-//	(ses (cfg MAXROWS EXECMS KS) STMT…)
+//	(ses (cfg MAXROWS EXECMS KS [MULTI]) STMT…)   MULTI: support_multi_query + CLIENT_MULTI_STATEMENTS
+//	    | (mq CUT ((RESULT…) …))     one COM_QUERY text of several statements, each with its own answer
+//	                                 (only with MULTI: the proxy splits the text and answers every
+//	                                 statement, SERVER_MORE_RESULTS_EXISTS on all but the last)
 //	STMT: (begin) | (commit) | (rollback)
 //	    | (un BIN CUT (RESULT…))     SELECT /*c39*/ id, pad FROM t   (CALL /*c39*/ pad() for several results),
 //	                                 COM_QUERY or (BIN) COM_STMT_EXECUTE; CUT = -1, or the client takes CUT
@@ -368,6 +371,7 @@ func execC39Ses(m *server.Manager, in core.Sexp) string {
 	maxRows := int(cfg.Nth(1).Int())
 	execMs := int(cfg.Nth(2).Int())
 	ks := cfg.Nth(3).Bool()
+	multi := len(cfg.List) > 4 && cfg.Nth(4).Bool()
 	stmts := in.List[2:]
 	server.VerifC39SetMaxResultSize(m, c39NS, maxRows)
 	server.VerifC39SetMaxExecuteTime(m, c39NS, execMs)
@@ -390,6 +394,8 @@ func execC39Ses(m *server.Manager, in core.Sexp) string {
 
 	pipe := newC39Pipe()
 	sess := server.VerifC39NewRunSession(srv, pipe, c39NS, "c39", "db_ks", ks)
+	server.VerifC39SetMultiStatements(sess, m, c39NS, multi)
+	defer server.VerifC39SetMultiStatements(sess, m, c39NS, false)
 	done := make(chan struct{})
 	go func() {
 		defer close(done)
@@ -473,6 +479,25 @@ func execC39Ses(m *server.Manager, in core.Sexp) string {
 			} else {
 				pkt = c39Packet(mysql.ComQuery, sql)
 			}
+		case "mq":
+			// one COM_QUERY text of several statements, split by the proxy (doMultiStmts): each
+			// statement gets its own answer from slice-0's backend
+			cut = int(st.Nth(1).Int())
+			base := 0
+			var texts []string
+			for _, a := range st.Nth(2).List {
+				rsp := &c39Response{base: base}
+				for k, r := range a.List {
+					res := c39ParseResult(r)
+					res.more = k < len(a.List)-1
+					rsp.results = append(rsp.results, res)
+					pads = append(pads, res.items...)
+					base += c39ResultRows(res)
+				}
+				sls[0].queue = append(sls[0].queue, rsp)
+				texts = append(texts, "SELECT /*c39*/ id, pad FROM t")
+			}
+			pkt = c39Packet(mysql.ComQuery, strings.Join(texts, "; "))
 		case "sq":
 			cut = int(st.Nth(1).Int())
 			var ids []string
@@ -621,6 +646,20 @@ func c39Cfg(maxRows, execMs int, ks bool) core.Sexp {
 	return core.L(core.A("cfg"), core.I(int64(maxRows)), core.I(int64(execMs)), core.B(ks))
 }
 
+// c39CfgMulti: a session whose multi-statement packets the proxy splits.
+func c39CfgMulti(maxRows, execMs int, ks bool) core.Sexp {
+	return core.L(core.A("cfg"), core.I(int64(maxRows)), core.I(int64(execMs)), core.B(ks), core.B(true))
+}
+
+// c39Mq is one COM_QUERY text of several statements, one result each.
+func c39Mq(cut int, results ...c39SesResult) core.Sexp {
+	var as []core.Sexp
+	for _, r := range results {
+		as = append(as, core.L(r.sexp))
+	}
+	return core.L(core.A("mq"), core.I(int64(cut)), core.L(as...))
+}
+
 func c39Un(bin bool, cut int, results ...c39SesResult) core.Sexp {
 	var rs []core.Sexp
 	for _, r := range results {
@@ -661,6 +700,7 @@ func genC39Ses(g *core.Gen) {
 			execMs = 5000 // armed, never reached: nothing stalls in these sessions
 		}
 		tx := false
+		multi := g.Intn(5) == 0
 		var stmts []core.Sexp
 		var counts []int
 		n := 1 + g.Intn(6)
@@ -674,11 +714,32 @@ func genC39Ses(g *core.Gen) {
 			case x == 1:
 				stmts = append(stmts, core.Pick(g, []core.Sexp{commit, commit, rollback}))
 				tx = false
+			case x <= 8 && multi && g.Intn(2) == 0:
+				// a packet of 2-4 statements, split by the proxy
+				pinned := ks || tx
+				var rs []c39SesResult
+				packets := 0
+				for q, k := 0, 2+g.Intn(3); q < k; q++ {
+					r := c39GenSmallResult(g, pinned)
+					if g.Intn(6) == 0 {
+						r = c39OKP
+					}
+					rs = append(rs, r)
+					packets += r.packets
+					counts = append(counts, r.rows)
+				}
+				cut := -1
+				if g.Intn(6) == 0 {
+					cut = g.Intn(packets + 2)
+					tags["ses-client-cut"] = true
+				}
+				stmts = append(stmts, c39Mq(cut, rs...))
+				tags["ses-multi-statement"] = true
 			case x <= 8:
 				pinned := ks || tx
 				var rs []c39SesResult
 				k := 1
-				if g.Intn(4) == 0 {
+				if g.Intn(4) == 0 && !multi {
 					k = 2 + g.Intn(2)
 					tags["ses-multi-result"] = true
 				}
@@ -749,7 +810,11 @@ func genC39Ses(g *core.Gen) {
 			tl = append(tl, t)
 		}
 		sort.Strings(tl)
-		ses(c39Cfg(m, execMs, ks), stmts, tl...)
+		if multi {
+			ses(c39CfgMulti(m, execMs, ks), stmts, tl...)
+		} else {
+			ses(c39Cfg(m, execMs, ks), stmts, tl...)
+		}
 	}
 	// a backend that falls silent under max_sql_execute_time
 	nStall := g.Scale(8, 40)
@@ -842,6 +907,17 @@ func genC39Ses(g *core.Gen) {
 			}
 			return c39Cfg(core.Pick(g, []int{r.rows - 1, r.rows / 2}), 0, false), stmts
 		}},
+		{"ses-big-multi-statement", func() (core.Sexp, []core.Sexp) {
+			// the streamed answer to a statement that is not the last of its packet: delivered with the
+			// flag, or (row limit between the chunks) ended by an error that also ends the packet's answer
+			r := big(2 + g.Intn(2))
+			m := core.Pick(g, []int{-1, -1, r.rows * 2 / 3})
+			stmts := []core.Sexp{c39Mq(-1, r, c39Small(2), c39Small(1)), after}
+			if g.Intn(2) == 0 {
+				stmts = append([]core.Sexp{begin}, stmts...)
+			}
+			return c39CfgMulti(m, 0, g.Intn(3) == 0), stmts
+		}},
 		{"ses-big-sharded", func() (core.Sexp, []core.Sexp) {
 			r, s1, s2 := big(3), c39Small(2), c39Small(3)
 			var tbls [4]*c39SesResult
@@ -868,7 +944,7 @@ func genC39Ses(g *core.Gen) {
 	skip := map[int]bool{}
 	if g.Scale(0, 1) == 0 {
 		for len(skip) < 3 {
-			if k := 1 + g.Intn(len(cases)-1); k != 4 {
+			if k := 1 + g.Intn(len(cases)-1); k != 4 && cases[k].tag != "ses-big-multi-statement" {
 				skip[k] = true
 			}
 		}
